@@ -57,6 +57,8 @@ type PodP struct {
 	Orphan bool `json:"orphan,omitempty"` // no owner reference (adoptable if labels match and not terminating)
 	// NoIdentity: pod lacks the pod-name label (identity drift -> the controller updates the pod)
 	NoIdentity bool `json:"no_identity,omitempty"`
+	// Bare: a hand-made pod: no spec.hostname / spec.subdomain (both immutable, the controller cannot add them)
+	Bare bool `json:"bare,omitempty"`
 	// AltRef: the controller reference was written through the other served API version (v1alpha1); same UID
 	AltRef bool `json:"alt_ref,omitempty"`
 }
@@ -141,10 +143,12 @@ const (
 	FAlreadyExists  // object really created just before a create
 	FCrashBefore    // process dies at the call, call not applied
 	FCrashAfter     // process dies right after the call took effect
+	FInvalid        // 422: the API server (validation, an admission webhook) rejects the write; reads are not faulted
+	FForbidden      // 403: quota / policy rejects the write
 	numFaultKinds
 )
 
-var faultNames = [...]string{"none", "serverError", "timeoutLost", "timeoutApplied", "conflict", "notFound", "alreadyExists", "crashBefore", "crashAfter"}
+var faultNames = [...]string{"none", "serverError", "timeoutLost", "timeoutApplied", "conflict", "notFound", "alreadyExists", "crashBefore", "crashAfter", "invalid", "forbidden"}
 
 type Op struct {
 	K int `json:"k"`
@@ -157,7 +161,7 @@ type Op struct {
 	// Fault2 hits the Fault2Off-th call after the first fault, in the same reconcile (0 = none)
 	Fault2    int    `json:"fault2,omitempty"`
 	Fault2Off int    `json:"fault2_off,omitempty"`
-	FaultAt   int    `json:"fault_at,omitempty"`   // 1-based call index the fault hits; 0 = none; -1 = the first status write of the reconcile, -2 = the first pod create, -3 = the first pod delete, -4 = the first ControllerRevision delete, -5 = the first uncached read of the set
+	FaultAt   int    `json:"fault_at,omitempty"`   // 1-based call index the fault hits; 0 = none; -1 = the first status write of the reconcile, -2 = the first pod create, -3 = the first pod delete, -4 = the first ControllerRevision delete, -5 = the first uncached read of the set, -6 = the first pod update (identity / storage repair)
 	Fault     int    `json:"fault,omitempty"`      // fault kind
 	InterAt   int    `json:"inter_at,omitempty"`   // 1-based call index before which an environment op runs; 0 = none
 	InterKind int    `json:"inter_kind,omitempty"` // env op kind (kubelet / refresh / edit …), same encoding as K
@@ -272,6 +276,9 @@ func applySpec(set *asv1.StatefulSet, s SpecP) {
 		// ... and a hostname and subdomain of its own (legal; the per-pod identity takes their place)
 		set.Spec.Template.Spec.Hostname = "db"
 		set.Spec.Template.Spec.Subdomain = "legacy-svc"
+		// ... and metadata pasted from a live pod: an owner reference naming some controller, finalizers
+		yes := true
+		set.Spec.Template.OwnerReferences = []metav1.OwnerReference{{APIVersion: "apps/v1", Kind: "ReplicaSet", Name: "pasted", UID: "pasted-uid", Controller: &yes}}
 	}
 	if s.ClaimLabels {
 		for i := range set.Spec.VolumeClaimTemplates {
@@ -522,6 +529,9 @@ func BuildWorld(rep Rep, w *World) *Sys {
 		if pp.NoIdentity {
 			delete(p.Labels, "statefulset.kubernetes.io/pod-name")
 		}
+		if pp.Bare {
+			p.Spec.Hostname, p.Spec.Subdomain = "", ""
+		}
 		if pp.AltRef && len(p.OwnerReferences) == 1 {
 			p.OwnerReferences[0].APIVersion = "apps.pingcap.com/v1alpha1"
 		}
@@ -585,6 +595,16 @@ func (s *Sys) makeFault(kind int, a *sim.Action) *sim.Fault {
 		return &sim.Fault{Err: apierrors.NewTimeoutError("injected timeout (not applied)", 1)}
 	case FTimeoutApplied:
 		return &sim.Fault{Err: apierrors.NewTimeoutError("injected timeout (applied)", 1), Apply: true}
+	case FInvalid:
+		if a.IsWrite() {
+			return &sim.Fault{Err: apierrors.NewInvalid(schema.GroupKind{Group: a.GVR.Group, Kind: a.Resource}, a.Name, nil)}
+		}
+		return nil
+	case FForbidden:
+		if a.IsWrite() {
+			return &sim.Fault{Err: apierrors.NewForbidden(gr, a.Name, fmt.Errorf("injected: rejected by policy"))}
+		}
+		return nil
 	case FCrashBefore:
 		return &sim.Fault{Crash: true}
 	case FCrashAfter:
@@ -789,6 +809,9 @@ func (s *Sys) envOp(k, a, b int) {
 					}
 				}
 				p.OwnerReferences = nil
+				if abs(b)%3 == 0 {
+					p.Spec.Hostname, p.Spec.Subdomain = "", "" // written by hand, without the per-pod DNS identity
+				}
 				c.Put(p)
 				s.logf("somebody creates unowned pod %s", name)
 			}
@@ -1002,6 +1025,11 @@ func (s *Sys) Reconcile(op *Op) *sim.Record {
 			faultDone = true
 			return s.makeFault(op.Fault, a)
 		}
+		if op.FaultAt == -6 && !faultDone && a.Resource == "pods" && a.Verb == "update" {
+			faultDone = true
+			fault1At = n
+			return s.makeFault(op.Fault, a)
+		}
 		if op.FaultAt == -5 && !faultDone && a.Resource == "statefulsets" && a.Verb == "get" {
 			faultDone = true
 			fault1At = n
@@ -1159,8 +1187,9 @@ func genPodsSized(rt *rapid.T, histLen int, orphans, big bool) []PodP {
 		if orphans && !p.Term {
 			p.Orphan = rapid.IntRange(0, 9).Draw(rt, "orphan") == 0
 		}
-		p.NoIdentity = rapid.IntRange(0, 14).Draw(rt, "noIdentity") == 0
+		p.NoIdentity = rapid.IntRange(0, 9).Draw(rt, "noIdentity") == 0
 		p.AltRef = !p.Orphan && rapid.IntRange(0, 14).Draw(rt, "altRef") == 0
+		p.Bare = rapid.IntRange(0, 9).Draw(rt, "bare") == 0
 		pods = append(pods, p)
 	}
 	return pods
@@ -1195,8 +1224,10 @@ func genOps(rt *rapid.T, maxOps int, w opWeights, faults, interference bool) []O
 					op.FaultAt = -2
 				case 2:
 					op.FaultAt = -3
+				case 3:
+					op.FaultAt = -6
 				}
-				op.Fault = rapid.SampledFrom([]int{FServerError, FTimeoutLost, FTimeoutApplied, FConflict, FNotFound, FAlreadyExists}).Draw(rt, "fault")
+				op.Fault = rapid.SampledFrom([]int{FServerError, FTimeoutLost, FTimeoutApplied, FConflict, FNotFound, FAlreadyExists, FInvalid, FForbidden}).Draw(rt, "fault")
 			}
 			if interference && rapid.IntRange(0, 4).Draw(rt, "interfere") == 0 {
 				op.InterAt = rapid.IntRange(1, 10).Draw(rt, "interAt")
